@@ -769,6 +769,10 @@ func c10Run(c c10Case) (v vVerdict) {
 					conn.Write([]byte{0x10, 3, 0, 0, 0x08, 0xff, 0x00, 0xee, 0, 0, 0, 1, 0, 0, 0, 9})
 				case "tiny":
 					conn.Write([]byte{1, 2, 3})
+				case "othergroup": // a well-formed data packet of a channel group that did not exist when the source was sampled
+					q := packets.NewPacket(10, 1, uint32(op.N), 500)
+					q.NewData(make([]int16, 4*e.c.Nchan), []int16{int16(e.c.Nchan)})
+					conn.Write(q.Bytes())
 				case "empty":
 					conn.Write([]byte{})
 				case "hdronly": // the 16 fixed header bytes of a packet that announces 8 more header bytes, and nothing else
@@ -882,7 +886,7 @@ func c10Gen(t *rapid.T) c10Case {
 				c.Ops = append(c.Ops, c10Op{Op: "wait", N: rapid.IntRange(0, 9).Draw(t, "waitn")})
 			}
 			if (c.Source == "udp" || c.Source == "udp2") && rapid.IntRange(0, 3).Draw(t, "garbage") == 0 {
-				c.Ops = append(c.Ops, c10Op{Op: "garbage", Kind: rapid.SampledFrom([]string{"text", "shorthdr", "tiny", "empty", "hdronly"}).Draw(t, "gkind"), N: rapid.IntRange(0, 400).Draw(t, "gn")})
+				c.Ops = append(c.Ops, c10Op{Op: "garbage", Kind: rapid.SampledFrom([]string{"text", "shorthdr", "tiny", "empty", "hdronly", "othergroup"}).Draw(t, "gkind"), N: rapid.IntRange(0, 400).Draw(t, "gn")})
 			}
 		}
 		if c.Source == "scripted" && rapid.IntRange(0, 2).Draw(t, "selfend") == 0 {
